@@ -166,7 +166,19 @@ func (lc *lockCtx) stateAt(f *ssa.Function, site ssa.Instruction, obj string, m 
 			return lk
 		}
 	}
-	return lc.entryState(f, obj, m, depth, nil)
+	// a site that runs only for one value of a bool parameter is judged against the callers that pass that value
+	var only map[*ssa.Parameter]bool
+	for _, cf := range localFacts(site.Block()) {
+		if prm, ok := cf.Raw.(*ssa.Parameter); ok && prm.Parent() == f {
+			if bt, ok := prm.Type().Underlying().(*types.Basic); ok && bt.Kind() == types.Bool {
+				if only == nil {
+					only = map[*ssa.Parameter]bool{}
+				}
+				only[prm] = cf.Want
+			}
+		}
+	}
+	return lc.entryState(f, obj, m, depth, only)
 }
 
 // entryState: lock state guaranteed on entry to f by all its callers (only call sites whose constant bool
@@ -214,7 +226,12 @@ func (lc *lockCtx) entryState(f *ssa.Function, obj string, m *types.Var, depth i
 						}
 					case *ssa.Call:
 						known = true
-						if s := lc.stateAt(par, u, obj, m, depth+1); s < state {
+						s := lc.stateAt(par, u, obj, m, depth+1)
+						// passed to a repo function that calls it: the lock may be taken by that function around the call
+						if s2, ok := lc.stateInCallee(u, mc, obj, m, depth+1); ok && s2 > s {
+							s = s2
+						}
+						if s < state {
 							state = s
 						}
 					case *ssa.DebugRef:
@@ -300,6 +317,50 @@ func (lc *lockCtx) entryState(f *ssa.Function, obj string, m *types.Var, depth i
 	}
 	lc.memo[key] = state
 	return state
+}
+
+// stateInCallee: closure mc is passed as an argument of call u to a repo function that only calls it (synchronously):
+// the lock state at those calls inside the callee, with obj translated to the callee's parameter it is rooted in.
+func (lc *lockCtx) stateInCallee(u *ssa.Call, mc *ssa.MakeClosure, obj string, m *types.Var, depth int) (int, bool) {
+	sc := u.Common().StaticCallee()
+	if sc == nil || sc.Blocks == nil || sc.Pkg == nil || !strings.HasPrefix(sc.Pkg.Pkg.Path(), modPath) || depth > 4 {
+		return lkNone, false
+	}
+	calleeObj := ""
+	for j, a := range u.Common().Args {
+		if j >= len(sc.Params) {
+			break
+		}
+		k := objKey(lc.p, a)
+		if obj == k || strings.HasPrefix(obj, k+".") {
+			calleeObj = "P:" + sc.Params[j].Name() + obj[len(k):]
+		}
+	}
+	if calleeObj == "" {
+		return lkNone, false
+	}
+	state, n := lkExcl, 0
+	for ai, a := range u.Common().Args {
+		if a != ssa.Value(mc) || ai >= len(sc.Params) {
+			continue
+		}
+		for _, ref := range *sc.Params[ai].Referrers() {
+			switch c := ref.(type) {
+			case *ssa.Call:
+				if c.Common().Value != ssa.Value(sc.Params[ai]) {
+					return lkNone, false
+				}
+				n++
+				if s := lc.stateAt(sc, c, calleeObj, m, depth+1); s < state {
+					state = s
+				}
+			case *ssa.DebugRef:
+			default:
+				return lkNone, false // stored, deferred, started as a goroutine
+			}
+		}
+	}
+	return state, n > 0
 }
 
 // ---------- accesses ----------
